@@ -40,6 +40,8 @@ class IE(enum.IntEnum):
 
 N = NewType('N', int)
 NL = NewType('NL', typing.List[int])
+NF = NewType('NF', float)
+TF = TypeVar('TF', bound=float)
 TL = TypeVar('TL', bound=typing.List[int])
 TU = TypeVar('TU', bound=typing.Union[int, str])
 T = TypeVar('T')
@@ -266,7 +268,7 @@ class Obj:
 
 # Names visible to eval() of rendered hint / object sources (replay scripts).
 NAMESPACE = {
-    'K': K, 'K2': K2, 'Other': Other, 'E': E, 'IE': IE, 'NL': NL, 'TL': TL, 'TU': TU, 'N': N, 'T': T, 'TB': TB, 'TC': TC, 'P': P, 'PImpl': PImpl,
+    'K': K, 'K2': K2, 'Other': Other, 'E': E, 'IE': IE, 'NL': NL, 'NF': NF, 'TF': TF, 'TL': TL, 'TU': TU, 'N': N, 'T': T, 'TB': TB, 'TC': TC, 'P': P, 'PImpl': PImpl,
     'G': G, 'GL': GL, 'USeq': USeq, 'UMSeq': UMSeq, 'UMap': UMap, 'UMMap': UMMap, 'USet': USet,
     'UMSet': UMSet, 'UColl': UColl, 'URev': URev, 'UCont': UCont, 'UIter': UIter,
     'Obj': Obj, 'typing': typing, 'collections': collections, 'cabc': cabc,
